@@ -1,14 +1,187 @@
 import Tbx.Model.Dijkstra
+import Tbx.Model.DijkstraLegacy
 import Tbx.Spec.ShortestPath
+import Tbx.Proofs.DijkstraPath
+import Tbx.Proofs.DijkstraHeapInst
 /-
-C09 — a retrieved Dijkstra path is a real shortest path.
+C09 — a retrieved Dijkstra path is a real shortest path from source to target.
+
 Property theorems only (helper lemmas live in Tbx/Proofs).  Registered in Tbx/Audit/C09.lean.
+As in C08 the queue laws are discharged from C10 (`heapLaws`), nothing about the heap is assumed.
+`ValidPath g s v p d` (Tbx/Spec/ShortestPath.lean): p starts at s, ends at v, has no repeated node,
+consecutive nodes are joined by an edge, and d = Σ cheapest parallel-edge weights along p.
 -/
 namespace Tbx.Props.C09
 open Tbx Tbx.Dijkstra
 
+/-! ### the judge -/
+
 /-- the judge's path check decides exactly the Spec's `ValidPath` -/
 theorem judge_validPath_iff (g : SP.Adj) (s v : Nat) (p : List Nat) (d : Nat) :
     SP.validPathB g s v p d = true ↔ SP.ValidPath g s v p d := SP.validPathB_iff g s v p d
+
+/-- … and a valid path is a real walk of that weight; so if the weight is the distance it is a shortest path -/
+theorem validPath_is_walk {g : SP.Adj} {s v : Nat} {p : List Nat} {d : Nat} (h : SP.ValidPath g s v p d) :
+    SP.Walk g s v d := h.walk
+
+def exAdj : Adj := staticAdj [(0, 1, 1), (0, 2, 10), (1, 2, 1)]      -- D3's witness graph
+
+example : SP.validPathB exAdj 0 2 [0, 1, 2] 2 = true := by decide
+example : SP.validPathB exAdj 0 2 [2] 2 = false := by decide
+
+/-! ### unreached nodes get no path (P0) -/
+
+/-- a node the search never inserted has no path (both searches) -/
+theorem unreached_none (stU : Uni) (stO : O2M) (v : Nat)
+    (hU : AHeap.inserted stU.queue (v : Int) = false) (hO : AHeap.inserted stO.queue (v : Int) = false) :
+    stU.retrieveNodePath v = .ok none ∧ stO.retrieveNodePath v = .ok none := by
+  unfold Uni.retrieveNodePath O2M.retrieveNodePath
+  simp [hU, hO]
+
+/-- … and a node that is unreachable from the source is never inserted: after `run(s, ·)` no path is
+returned for it, and one-to-many reports the unreachable marker as its distance -/
+theorem unreached_none_of_unreachable (adj : Adj) (n : Nat) (s v : Nat) (hv : ¬ SP.Reachable adj s v) :
+    (∀ (st st' : Uni) (t : Nat) (r : Int), WFq st.queue → uniRun adj n st s t = .ok (st', r) →
+        st'.retrieveNodePath v = .ok none) ∧
+    (∀ (st st' : O2M) (ts : List Nat) (ok : Bool), ts.Nodup → WFq st.queue → o2mRun adj n st s ts = .ok (st', ok) →
+        st'.retrieveNodePath v = .ok none ∧ st'.distance v = UMAX) := by
+  constructor
+  · intro st st' t r hw h
+    have P := uniRun_spec heapLaws adj n st s t hw
+    rw [h] at P
+    have hni : AHeap.inserted st'.queue (v : Int) = false := by
+      cases hi : AHeap.inserted st'.queue (v : Int)
+      · rfl
+      · obtain ⟨v', d, hv', _, hwalk⟩ := (UniPost.core P).sound v hi
+        have : v = v' := by omega
+        subst this
+        exact absurd ⟨d, hwalk⟩ hv
+    unfold Uni.retrieveNodePath; simp [hni]
+  · intro st st' ts ok hnd hw h
+    have P := o2mRun_spec heapLaws adj n st s ts hnd hw
+    rw [h] at P
+    have hni : AHeap.inserted st'.queue (v : Int) = false := by
+      cases hi : AHeap.inserted st'.queue (v : Int)
+      · rfl
+      · obtain ⟨v', d, hv', _, hwalk⟩ := P.1.linv.sound v hi
+        have : v = v' := by omega
+        subst this
+        exact absurd ⟨d, hwalk⟩ hv
+    refine ⟨by unfold O2M.retrieveNodePath; simp [hni], ?_⟩
+    unfold O2M.distance
+    rw [heapLaws.weight_wmax _ _ P.1.linv.inv hni]
+    exact P.1.linv.wf.2
+
+/-! ### parent pointers and retrieved paths (P1) -/
+
+/-- the search state `run` leaves behind allows path retrieval (`PathReady`: the invariant of
+DijkstraInv.lean plus "every parent is a settled node all of whose out-edges were relaxed") -/
+theorem final_state_ready (adj : Adj) (n : Nat) (s : Nat) :
+    (∀ (st st' : Uni) (t : Nat) (r : Int), WFq st.queue → uniRun adj n st s t = .ok (st', r) →
+        PathReady AHeap.Inv adj s st'.queue) ∧
+    (∀ (st st' : O2M) (ts : List Nat) (ok : Bool), ts.Nodup → WFq st.queue → o2mRun adj n st s ts = .ok (st', ok) →
+        PathReady AHeap.Inv adj s st'.queue) := by
+  constructor
+  · intro st st' t r hw h
+    have P := uniRun_spec heapLaws adj n st s t hw
+    rw [h] at P
+    cases P with
+    | found d hr hub R => exact R.pathReady
+    | drained hr hub I _ _ => exact I.pathReady
+  · intro st st' ts ok hnd hw h
+    have P := o2mRun_spec heapLaws adj n st s ts hnd hw
+    rw [h] at P
+    exact P.1.linv.pathReady
+
+/-- **parent_inv.**  In such a state the source is its own parent and every other inserted node `v`
+has a parent `p` that was settled (popped) with its relaxation complete, an edge p→v exists whose
+weight is `label v − label p`, and that edge is the cheapest of the parallel edges p→v. -/
+theorem parent_inv {adj : Adj} {s : Nat} {q : AHeap.Heap} (P : PathReady AHeap.Inv adj s q) :
+    AHeap.data? q (s : Int) = some (s : Int) ∧
+    ∀ v : Nat, AHeap.inserted q (v : Int) = true → v ≠ s →
+      ∃ p w : Nat, AHeap.data? q (v : Int) = some (p : Int) ∧ Settled q (p : Int) ∧ ClosedAt adj q p ∧
+        SP.IsCheapest adj p v w ∧ AHeap.weight q (v : Int) = AHeap.weight q (p : Int) + (w : Int) := by
+  refine ⟨P.src.2.2, ?_⟩
+  intro v hv hvs
+  have hvs' : (v : Int) ≠ (s : Int) := by omega
+  obtain ⟨p, w, h1, h2, h3, h4⟩ := P.par v hv hvs'
+  rw [Int.toNat_natCast] at h3
+  have hcl := P.pclosed v hv hvs' p h1
+  refine ⟨p, w, h1, h2, hcl, ⟨h3, ?_⟩, h4⟩
+  intro w' hw'
+  have := (hcl v w' hw').2
+  omega
+
+/-- **path_valid (state form).**  In such a state `retrieve_node_path(v)` of any inserted node
+terminates within its fuel and returns a valid path from the source whose cheapest-edge weights
+add up to the label of `v`. -/
+theorem path_valid {adj : Adj} {s : Nat} {q : AHeap.Heap} (P : PathReady AHeap.Inv adj s q) (v : Nat)
+    (hv : AHeap.inserted q (v : Int) = true) :
+    ∃ (path : Array Int) (nodes : List Nat) (d : Nat),
+      retrievePath q v = .ok (some path) ∧ path.toList = nodes.map Int.ofNat ∧
+      AHeap.weight q (v : Int) = (d : Int) ∧ SP.ValidPath adj s v nodes d :=
+  retrievePath_valid heapLaws P v hv
+
+/-- **path_valid, unidirectional.**  If `run(s,t)` reports a finite distance `r`, the path retrieved
+for `t` is a valid path s … t of weight `r`, and `r` is the true distance: a shortest path. -/
+theorem path_valid_uni (adj : Adj) (n : Nat) (st st' : Uni) (s t : Nat) (r : Int) (hw : WFq st.queue)
+    (h : uniRun adj n st s t = .ok (st', r)) (hr : r ≠ UMAX) :
+    ∃ (path : Array Int) (nodes : List Nat) (d : Nat),
+      st'.retrieveNodePath t = .ok (some path) ∧ path.toList = nodes.map Int.ofNat ∧ r = (d : Int) ∧
+      SP.ValidPath adj s t nodes d ∧ SP.IsDist adj s t d := by
+  have P := uniRun_spec heapLaws adj n st s t hw
+  rw [h] at P
+  cases P with
+  | drained hr' _ _ _ _ => exact absurd hr' hr
+  | found d hrd hub R =>
+    obtain ⟨path, nodes, d', h1, h2, h3, h4⟩ := retrievePath_valid heapLaws R.pathReady t R.cur.1.1
+    have hdd : d' = d := by have := R.cur.2; omega
+    subst hdd
+    refine ⟨path, nodes, d', ?_, h2, hrd, h4, h4.walk, ?_⟩
+    · unfold Uni.retrieveNodePath
+      have : (st'.upperBound == UMAX) = false := by rw [hub]; simpa using hr
+      simp only [this, R.cur.1.1, Bool.not_true, Bool.or_self, Bool.false_eq_true, if_false]
+      exact h1
+    · intro d2 hw2
+      have := R.exact t R.cur.1 d2 hw2
+      rw [R.cur.2] at this; omega
+
+/-- **path_valid, one-to-many.**  For EVERY node `v` to which `distance(v)` reports a finite value
+(settled or still queued when the search stopped) the retrieved path is a valid path s … v whose
+cheapest-edge weights add up to exactly that value. -/
+theorem path_valid_o2m (adj : Adj) (n : Nat) (st st' : O2M) (s : Nat) (ts : List Nat) (ok : Bool)
+    (hnd : ts.Nodup) (hw : WFq st.queue) (h : o2mRun adj n st s ts = .ok (st', ok)) (v : Nat)
+    (hv : st'.distance v ≠ UMAX) :
+    ∃ (path : Array Int) (nodes : List Nat) (d : Nat),
+      st'.retrieveNodePath v = .ok (some path) ∧ path.toList = nodes.map Int.ofNat ∧
+      st'.distance v = (d : Int) ∧ SP.ValidPath adj s v nodes d := by
+  have P := o2mRun_spec heapLaws adj n st s ts hnd hw
+  rw [h] at P
+  have hi : AHeap.inserted st'.queue (v : Int) = true := by
+    cases hi : AHeap.inserted st'.queue (v : Int)
+    · exfalso; apply hv
+      unfold O2M.distance
+      rw [heapLaws.weight_wmax _ _ P.1.linv.inv hi]; exact P.1.linv.wf.2
+    · rfl
+  obtain ⟨path, nodes, d, h1, h2, h3, h4⟩ := retrievePath_valid heapLaws P.1.linv.pathReady v hi
+  refine ⟨path, nodes, d, ?_, h2, h3, h4⟩
+  unfold O2M.retrieveNodePath
+  simp only [hi, Bool.not_true, Bool.false_eq_true, if_false]
+  exact h1
+
+/-! ### non-vacuity and the D3 witness -/
+
+def pathOf (r : Res (Option (Array Int))) : Option (List Int) := match r with | .ok (some p) => some p.toList | _ => none
+def uniState (r : Res (Uni × Int)) : Uni := match r with | .ok (st, _) => st | _ => Uni.new
+def o2mState (r : Res (O2M × Bool)) : O2M := match r with | .ok (st, _) => st | _ => O2M.new
+
+/-- node 2 is first labelled 10 (edge 0→2) and then lowered to 2 through node 1: its path is [0,1,2] -/
+example : pathOf ((uniState (uniRun exAdj 3 Uni.new 0 2)).retrieveNodePath 2) = some [0, 1, 2] := by decide +kernel
+example : pathOf ((o2mState (o2mRun exAdj 3 O2M.new 0 [2])).retrieveNodePath 2) = some [0, 1, 2] := by decide +kernel
+
+/-- D3 (fixed): with the legacy parent update (`v` instead of `u` on decrease) the path to 2 is `[2]`,
+which the judge rejects -/
+example : pathOf ((uniState (Legacy.uniRunD3 exAdj 3 Uni.new 0 2)).retrieveNodePath 2) = some [2] := by rfl
+example : SP.validPathB exAdj 0 2 [2] 2 = false := by decide
 
 end Tbx.Props.C09
